@@ -26,7 +26,7 @@ def sv_cases(draw: Any, feat: Optional[S.Features] = None, nrand: int = 2, max_l
 
     feat = feat or S.Features()
     if feat.big:
-        feat = replace(feat, extremes=True, keyword_field_names=True, subdirs=True, odd_file_names=True)
+        feat = replace(feat, extremes=True, keyword_field_names=True, subdirs=True, odd_file_names=True, long_names=True)
     unit = draw(S.units(feat))
     # a satisfied `option max_bytes` must change nothing (C08/C13 own its acceptance boundary)
     for m in unit_messages(unit):
